@@ -2,9 +2,12 @@
 (* Design check of Sched.tla: all small schedules. Scripts are sequences of abstract instructions *)
 (*   <<"m">> marker   <<"sl">> sleep D   <<"sp", j>> spawn script j   <<"te", j>> terminate j      *)
 (*   <<"sd", j>> poll scriptDone j                                                                 *)
+(*   <<"fs", f>> make condition f true   <<"wu", f>> waitUntil condition f holds (evaluates the     *)
+(*   condition; false: suspended for D, evaluated again when resumed - WaitCheck = FALSE is the     *)
+(*   deviation found in the pinned code: the wait ends whatever the condition yields)               *)
 EXTENDS Sched
 
-CONSTANTS Slice, MaxVisits
+CONSTANTS Slice, MaxVisits, WaitCheck
 
 Ids == 1..4
 D == 2
@@ -16,11 +19,13 @@ Bodies == {
   [i \in Ids |-> IF i = 1 THEN <<<<"m">>, <<"sp", 4>>, <<"m">>>> ELSE IF i = 2 THEN <<<<"m">>>> ELSE IF i = 3 THEN <<<<"m">>, <<"m">>, <<"m">>>> ELSE <<<<"m">>, <<"m">>>>],
   [i \in Ids |-> IF i = 1 THEN <<<<"sl">>, <<"m">>>> ELSE IF i = 2 THEN <<<<"m">>, <<"m">>, <<"m">>>> ELSE IF i = 3 THEN <<<<"m">>>> ELSE <<<<"m">>>>],
   [i \in Ids |-> IF i = 1 THEN <<<<"m">>, <<"te", 3>>, <<"m">>, <<"sd", 3>>>> ELSE IF i = 2 THEN <<<<"m">>>> ELSE IF i = 3 THEN <<<<"m">>, <<"m">>, <<"m">>, <<"m">>>> ELSE <<<<"m">>>>],
-  [i \in Ids |-> IF i = 1 THEN <<<<"sp", 4>>, <<"sd", 4>>, <<"sl">>, <<"sd", 4>>, <<"sd", 2>>>> ELSE IF i = 2 THEN <<<<"m">>>> ELSE IF i = 3 THEN <<<<"sl">>, <<"m">>>> ELSE <<<<"m">>, <<"sl">>, <<"m">>>>]
+  [i \in Ids |-> IF i = 1 THEN <<<<"sp", 4>>, <<"sd", 4>>, <<"sl">>, <<"sd", 4>>, <<"sd", 2>>>> ELSE IF i = 2 THEN <<<<"m">>>> ELSE IF i = 3 THEN <<<<"sl">>, <<"m">>>> ELSE <<<<"m">>, <<"sl">>, <<"m">>>>],
+  [i \in Ids |-> IF i = 1 THEN <<<<"wu", 1>>, <<"m">>>> ELSE IF i = 2 THEN <<<<"m">>, <<"m">>, <<"fs", 1>>>> ELSE IF i = 3 THEN <<<<"m">>>> ELSE <<<<"m">>>>],
+  [i \in Ids |-> IF i = 1 THEN <<<<"m">>, <<"wu", 1>>, <<"m">>>> ELSE IF i = 2 THEN <<<<"sl">>, <<"fs", 1>>, <<"m">>>> ELSE IF i = 3 THEN <<<<"wu", 1>>, <<"m">>>> ELSE <<<<"m">>>>]
 }
 
-VARIABLES body, s, pc, budget, phase, born, died, marks, polls, tdone
-vars == <<body, s, pc, budget, phase, born, died, marks, polls, tdone>>
+VARIABLES body, s, pc, budget, phase, born, died, marks, polls, tdone, held, passes
+vars == <<body, s, pc, budget, phase, born, died, marks, polls, tdone, held, passes>>
 
 Ended(id) == pc[id] > Len(body[id])
 
@@ -31,6 +36,7 @@ Init == /\ body \in Bodies
         /\ pc = [i \in Ids |-> 1] /\ budget = 0 /\ phase = "pick"
         /\ born = [i \in Ids |-> 0] /\ died = [i \in Ids |-> Inf]
         /\ marks = <<>> /\ polls = <<>> /\ tdone = [i \in Ids |-> Inf]
+        /\ held = {} /\ passes = <<>>      \* conditions that hold; waits that ended: [f, held - did the condition hold?]
 
 \* the loop visits the next script
 Pick ==
@@ -43,18 +49,25 @@ Pick ==
           /\ budget' = IF sleeping THEN 0 ELSE Slice
           /\ pc' = IF killed /\ ~sleeping THEN [pc EXCEPT ![id] = Len(body[id]) + 1] ELSE pc   \* a terminated script executes nothing more
           /\ phase' = "slice"
-    /\ UNCHANGED <<body, born, died, marks, polls, tdone>>
+    /\ UNCHANGED <<body, born, died, marks, polls, tdone, held, passes>>
 
 Cur == s.order[s.cur]
 
 Exec ==
     /\ phase = "slice" /\ budget > 0 /\ ~Ended(Cur) /\ ~s.susp[Cur]
-    /\ LET id == Cur ins == body[id][pc[id]] IN
-       /\ pc' = [pc EXCEPT ![id] = pc[id] + 1] /\ budget' = budget - 1
+    /\ LET id == Cur ins == body[id][pc[id]]
+           waits == ins[1] = "wu" /\ ins[2] \notin held /\ WaitCheck      \* condition false: suspend, evaluate again later
+       IN
+       /\ pc' = IF waits THEN pc ELSE [pc EXCEPT ![id] = pc[id] + 1]
+       /\ budget' = budget - 1
+       /\ held' = IF ins[1] = "fs" THEN held \cup {ins[2]} ELSE held
+       /\ passes' = IF ins[1] = "wu" /\ ~waits THEN Append(passes, [f |-> ins[2], held |-> ins[2] \in held]) ELSE passes
        /\ CASE ins[1] = "m" -> marks' = Append(marks, [id |-> id, step |-> pc[id], at |-> Len(s.hist)]) /\ UNCHANGED <<s, born, polls, tdone>>
             [] ins[1] = "sl" -> s' = [s EXCEPT !.susp[id] = TRUE, !.wake[id] = s.clock + D] /\ UNCHANGED <<marks, born, polls, tdone>>
             [] ins[1] = "sp" -> s' = SpawnS(s, ins[2]) /\ born' = [born EXCEPT ![ins[2]] = Len(s.hist)] /\ UNCHANGED <<marks, polls, tdone>>
             [] ins[1] = "te" -> s' = [s EXCEPT !.term[ins[2]] = TRUE] /\ tdone' = [tdone EXCEPT ![ins[2]] = Len(marks)] /\ UNCHANGED <<marks, born, polls>>
+            [] ins[1] = "fs" -> UNCHANGED <<s, marks, born, polls, tdone>>
+            [] ins[1] = "wu" -> s' = (IF waits THEN [s EXCEPT !.susp[id] = TRUE, !.wake[id] = s.clock + D] ELSE s) /\ UNCHANGED <<marks, born, polls, tdone>>
             [] ins[1] = "sd" -> polls' = Append(polls, [target |-> ins[2], val |-> s.done[ins[2]], ended |-> Ended(ins[2]), gone |-> ins[2] \notin Elems(s.order)])
                                 /\ UNCHANGED <<s, marks, born, tdone>>
     /\ UNCHANGED <<body, phase, died>>
@@ -65,7 +78,7 @@ EndSlice ==
        THEN /\ s' = [EraseS(s) EXCEPT !.done[Cur] = TRUE] /\ died' = [died EXCEPT ![Cur] = Len(s.hist)]
        ELSE UNCHANGED <<s, died>>
     /\ phase' = "pick" /\ budget' = 0
-    /\ UNCHANGED <<body, pc, born, marks, polls, tdone>>
+    /\ UNCHANGED <<body, pc, born, marks, polls, tdone, held, passes>>
 
 Next == Pick \/ Exec \/ EndSlice
 Spec == Init /\ [][Next]_vars
@@ -79,5 +92,6 @@ InvTerminateEffective == \A i \in 1..Len(marks) : \A id \in Ids :
     (marks[i].id = id /\ tdone[id] # Inf /\ i > tdone[id]) =>
         \* the mark belongs to the slice in which the target was terminated or... the target must not have been visited since
         ~ \E v \in 1..Len(s.hist) : s.hist[v].id = id /\ s.hist[v].ran /\ v > (IF tdone[id] = 0 THEN 0 ELSE marks[tdone[id]].at) /\ v <= marks[i].at /\ v # marks[i].at
+InvWaitHolds == \A i \in 1..Len(passes) : WaitHolds(passes[i].f, [f \in Ids |-> passes[i].held])
 InvIsolation == \A i, j \in 1..Len(marks) : (i < j /\ marks[i].id = marks[j].id) => marks[i].step < marks[j].step
 =============================================================================
